@@ -113,6 +113,66 @@ def _worker(job):
     return agg
 
 
+
+def new_agg():
+    return {
+        'n': 0, 'nontrivial': 0, 'states': 0, 'transitions': 0,
+        'counters': collections.Counter(), 'outcomes': set(),
+        'viol': {}, 'nviol': 0, 'samples': [],
+    }
+
+
+def merge_part(agg, part, si):
+    for k in ('n', 'nontrivial', 'states', 'transitions', 'nviol'):
+        agg[k] += part[k]
+    agg['counters'].update(part['counters'])
+    agg['outcomes'] |= part['outcomes']
+    agg['samples'] += part['samples']
+    for sig, (i, case, msg) in part['viol'].items():
+        key = (si, i)
+        if sig not in agg['viol'] or key < agg['viol'][sig][0]:
+            agg['viol'][sig] = (key, case, msg)
+
+
+def enumerate_spaces(pool, spaces, seed, jobs, t0, deadline_s, agg,
+                     per_space, capped, base_index=0):
+    """Run every index of every space exactly once on the pool"""
+    for si, space in enumerate(spaces):
+        if time.time() - t0 > deadline_s:
+            capped.append(space.name)
+            per_space.append({'name': space.name, 'size': space.size,
+                              'explored': 0, 'note': space.note})
+            continue
+        ts = time.time()
+        if space.size == 0:
+            per_space.append({'name': space.name, 'size': 0,
+                              'explored': 0, 'note': space.note})
+            continue
+        nchunks = max(1, min(space.size, jobs * 8))
+        step = -(-space.size // nchunks)
+        sample_idx = frozenset(
+            (seed * 7919 + k * (space.size // 3 + 1) + 1) % space.size
+            for k in range(2))
+        chunks = [(si, lo, min(lo + step, space.size), sample_idx)
+                  for lo in range(0, space.size, step)]
+        rot = seed % len(chunks)
+        chunks = chunks[rot:] + chunks[:rot]
+        n_space = 0
+        nt_space = 0
+        for part in pool.imap_unordered(_worker, chunks):
+            n_space += part['n']
+            nt_space += part['nontrivial']
+            merge_part(agg, part, base_index + si)
+        if n_space != space.size:
+            raise InternalError(
+                'space %s: explored %d of %d' % (space.name, n_space,
+                                                 space.size))
+        per_space.append({
+            'name': space.name, 'size': space.size, 'explored': n_space,
+            'nontrivial': nt_space, 'note': space.note,
+            'wall_s': round(time.time() - ts, 2)})
+
+
 def load_known_findings():
     path = os.path.join(HERE, 'known_findings.json')
     with open(path) as f:
@@ -126,64 +186,27 @@ def run_check(module, tier, seed, jobs, deadline_s):
     selftest = getattr(module, 'selftest', None)
     if selftest:
         selftest()
-    spaces = module.spaces(tier)
     _STATE['module'] = module
-    _STATE['spaces'] = spaces
-    total = sum(s.size for s in spaces)
-    agg = {
-        'n': 0, 'nontrivial': 0, 'states': 0, 'transitions': 0,
-        'counters': collections.Counter(), 'outcomes': set(),
-        'viol': {}, 'nviol': 0, 'samples': [],
-    }
+    agg = new_agg()
     per_space = []
     capped = []
     ctx = multiprocessing.get_context('fork')
-    with ctx.Pool(jobs) as pool:
-        for si, space in enumerate(spaces):
-            if time.time() - t0 > deadline_s:
-                capped.append(space.name)
-                per_space.append({'name': space.name, 'size': space.size,
-                                  'explored': 0, 'note': space.note})
-                continue
-            ts = time.time()
-            if space.size == 0:
-                per_space.append({'name': space.name, 'size': 0,
-                                  'explored': 0, 'note': space.note})
-                continue
-            nchunks = max(1, min(space.size, jobs * 8))
-            step = -(-space.size // nchunks)
-            sample_idx = frozenset(
-                (seed * 7919 + k * (space.size // 3 + 1) + 1) % space.size
-                for k in range(2))
-            chunks = [(si, lo, min(lo + step, space.size), sample_idx)
-                      for lo in range(0, space.size, step)]
-            rot = seed % len(chunks)
-            chunks = chunks[rot:] + chunks[:rot]
-            n_space = 0
-            nt_space = 0
-            for part in pool.imap_unordered(_worker, chunks):
-                n_space += part['n']
-                nt_space += part['nontrivial']
-                for k in ('n', 'nontrivial', 'states', 'transitions',
-                          'nviol'):
-                    agg[k] += part[k]
-                agg['counters'].update(part['counters'])
-                agg['outcomes'] |= part['outcomes']
-                agg['samples'] += part['samples']
-                for sig, (i, case, msg) in part['viol'].items():
-                    key = (si, i)
-                    if sig not in agg['viol'] or key < agg['viol'][sig][0]:
-                        agg['viol'][sig] = (key, case, msg)
-            if n_space != space.size:
-                raise InternalError(
-                    'space %s: explored %d of %d' % (space.name, n_space,
-                                                     space.size))
-            per_space.append({
-                'name': space.name, 'size': space.size, 'explored': n_space,
-                'nontrivial': nt_space, 'note': space.note,
-                'wall_s': round(time.time() - ts, 2)})
-    if agg['n'] + sum(s.size for s in spaces if s.name in capped) != total:
-        raise InternalError('case count mismatch')
+    custom = getattr(module, 'explore', None)
+    if custom:
+        # explicit-state search driven by the module itself (C20): it fills
+        # the same aggregate through enumerate_spaces / merge_part
+        total = custom(tier, seed, jobs, t0, deadline_s, agg, per_space,
+                       capped)
+    else:
+        spaces = module.spaces(tier)
+        _STATE['spaces'] = spaces
+        total = sum(s.size for s in spaces)
+        with ctx.Pool(jobs) as pool:
+            enumerate_spaces(pool, spaces, seed, jobs, t0, deadline_s, agg,
+                             per_space, capped)
+        if agg['n'] + sum(s.size for s in spaces
+                          if s.name in capped) != total:
+            raise InternalError('case count mismatch')
 
     # ---- violations: determinism, known findings, replay files
     known = load_known_findings()
